@@ -211,8 +211,13 @@ class Interp:
                 t = self.ts[0] - float(op["d"])
             elif kind == "after":
                 t = self.ts[-1] + float(op["d"])
+            elif kind == "repeat":
+                # exactly the time of the previous query (records may have been added in between)
+                t = getattr(self, "last_q_t", self.ts[-1])
+                self.res.labels.append("repeat_query")
             else:
                 t = float(op["t"])
+            self.last_q_t = t
             self.check_query(t, "query:" + kind)
         elif k == "mutate":
             arr = self.last_arr
@@ -376,6 +381,10 @@ class HistoryArm(Arm):
             @rule(t=st.floats(-50, 200, allow_nan=False))
             def q_abs(self, t):
                 self._do({"op": "query", "kind": "abs", "t": t})
+
+            @rule()
+            def q_repeat(self):
+                self._do({"op": "query", "kind": "repeat"})
 
             @rule()
             def mutate(self):
